@@ -38,6 +38,11 @@ CHECKS = {
    note="Trusted: as C03; peer readiness is an oracle; tokio Notify semantics (notify_waiters wakes exactly the existing Notified futures) is an assumption taken from the tokio docs. Two genuine defects were found and repaired by fix: commits.",
    technique="Coq proof: invariants and exact rotation arithmetic by induction over histories; small-step interleaving model of the Notify race; schedule-point correspondence",
    design="6/C13"),
+ "C14": dict(
+   text="Coq proofs over a model of every send method of the three connection objects (session ScaConnectionIface, inproc DirectInprocConnection, io_uring ZmtpSmartConnection: send_message / send_multipart / send_multipart_owned / try_send_multipart_owned_sync) and of the PUSH and DEALER wrappers, with abstract time and an oracle for what the pipe does while the call waits, the timer entering as a function with the law d <= fire d <= d + slack: at SNDTIMEO=0 a full pipe answers at time 0 with the pipe untouched; a positive SNDTIMEO never fails early, answers Timeout/WouldBlock inside [d, d+slack] and does not enqueue; Ok iff the message is on the pipe exactly once, Err implies it is not (no spurious success, handed back exactly for the _owned/_sync methods); RCVTIMEO 0 / positive / -1 likewise for the four recv engines; SNDTIMEO=-1 really waits only in the session's send_multipart_owned (every other path gives up at a 30 s / 300 s fall-back: refuted with witnesses, proved outside); per-connection buffering is bounded by 2*SNDHWM + RCVHWM + one read (sessions, over C01's pipeline model) and 2*RCVHWM + RCVBATCH_COUNT (inproc) in every reachable state; the DEALER pending queue holds at most SNDHWM. Tie: the real connection objects over a bounded fibre channel under a paused tokio clock (answer, virtual elapsed ms, copies on the pipe, what came back) compared exactly with the model; real PUSH/DEALER/ROUTER/REQ sockets at their mark over tcp/inproc x HWM x SNDTIMEO x peer pacing, and idle receivers.",
+   note="Trusted: tokio timers fire no earlier than asked (premise fire law); 'one read' bounding the ingress buffer is a premise; ROUTER's private recv path is tied on real sockets only; ROUTER is tested with ROUTER_MANDATORY=1 (silent drop at the mark otherwise is documented ZeroMQ behaviour). Five genuine defects recorded as known findings (three -1 fall-backs, SNDTIMEO snapshot at connect, DEALER queue processor loses a queued message).",
+   technique="Coq proof: case analysis over the 12 send methods and 4 recv engines with abstract time (lia), invariant of the admission-guarded pipeline by induction over runs; paused-clock facade correspondence + real-socket scenarios",
+   design="6/C14"),
  "C15": dict(
    text="Coq proofs over a transition model of the socket core's ShutdownCoordinator (Running/Lingering/CleaningPipes/Finished, abstract clock, pipe-emptiness inputs) composed with the session's reaction to a stop request and with the C01 data path and the peer's engine: a bounded LINGER d ends the shutdown at the first maintenance tick at or after t0+d (before t0+d+P for tick spacing P) for every queue content, LINGER 0 finishes inside initiate_core_shutdown, LINGER -1 waits exactly for empty pipes; for every LINGER and every schedule (session stopped at any point, any write/read segmentation) what the peer's recv() returns is a prefix of what send() accepted, each message whole (engine lemma: any prefix of a valid stream + EOF delivers the first k messages). 'LINGER -1 transmits everything' is refuted for the code (witnesses: a message in the EgressBuffer, a message still in the pipe - the session reacts to the bus event itself) and proved outside that class. Tie: op scripts on the real coordinator / initiate_core_shutdown / check_and_advance_linger through a facade with scripted pipes on a 40 ms clock grid; real PUSH->PULL pairs over tcp/ipc/inproc for LINGER {-1,0,1,50,500,5000} x queue depth x receiver pacing x close/term/handle drop.",
    note="Trusted: as C01; Instant::now() is not injectable (clock grid with retry); how many messages get through before the session stops is scheduler dependent (D, partial). One genuine defect recorded as a known finding (LINGER is not honoured over tcp/ipc).",
@@ -83,6 +88,11 @@ CHECKS = {
    note="Trusted: as C04 plus the symbolic idealisation of dryoc's crypto_box / snow's ChaChaPoly (no claim about the primitives or side channels); no-forgery premise `unforged` on attacker streams. One defect repaired (u16 record length wrap), two recorded.",
    technique="Coq proof relative to an ideal symbolic AEAD: append-stable record stepper, lock-step counter induction over arbitrary unforged streams; differential correspondence on real CURVE/NOISE_XX engine pairs",
    design="6/C18"),
+ "C20": dict(
+   text="Coq proofs for the io_uring backend: the handler's spill-over stash is FIFO for every order of deliver/attach/resume/drain/poll and every pipe-full pattern, is flushed completely once the pipe has room and throttles reads while non-empty; the registered send-buffer pool's free list never holds an id twice and free + held = all ids for every order of acquire/lease/release/drop; the provided-buffer ring lends every slot to the kernel and publishes/reports every buffer id exactly once; at most one successful close per fd; and for every configuration, every segmentation of the peer's bytes, every attach/drain/poll interleaving and pipe pattern the io_uring handler shell and the tokio session shell forward the same deliveries, handshake outcome and error class (built on the engine chunk independence of C04). The configurations in which the shells differ (heartbeats, handshake deadline, protocol error never closing, stash stranded at EOF) are refuted with witnesses. Tie: real SendBufferPool / ProvidedBufferRing on a real ring (the kernel consumes buffers over a socketpair), a real ZmtpUringHandler fed chunked transcripts with attach/drain/poll/EOF events, all compared row by row in Coq; differential runs of raw-peer transcripts, socket pairs around the 255/256, zero-copy and buffer-size thresholds, peer close, heartbeat, handshake deadline, fan-in and connection churn on tokio vs io_uring (x cork, x zerocopy/multishot worker configurations), with fd counts, Close-SQE traces and pool occupancy after quiescence.",
+   note="Trusted: as C04; cqe_processor.rs / main_loop.rs / multishot_reader.rs are covered by the differential runs only; SEND_ZC is unreachable in this tree (egress goes through writev), so zerocopy on/off cannot differ; observability counters are compiled out, facade accessors take their place. Seven genuine defects recorded as known findings.",
+   technique="Coq proof: invariants by induction over event sequences (spill FIFO, pool/ring conservation, close-once), shell equivalence by reduction to the shared engine stepper; facade correspondence on real ring objects + tokio/io_uring differential scenarios",
+   design="6/C20"),
  "C10": dict(
    text="Coq proofs over a small-step model of REQ and REP cut at the code's lock scopes and await points, for every number of tasks, every program and EVERY schedule (induction over schedules): the commit trace of successful calls is accepted by the alternation automaton (send, recv, send, ... on REQ; recv, send, ... on REP; with the code's reset events), a call refused by its opening state check changes nothing, every REP reply is addressed with the routing prefix and pipe of the request returned by the immediately preceding successful recv. Tie: schedule points between state check and state update in the real req_socket.rs / rep_socket.rs; real REQ/REP sockets with scripted ROUTER/DEALER peers; every call future polled by hand so that one token advances one task from point to point; all 2-task (thorough: 3-task) interleavings of every call kind and call orders up to length 3 (5) compared row by row with the model; 4-worker stress as failing-input search.",
    note="Trusted: as C03; one poll of select! is atomic; tokio Notify semantics; SNDTIMEO, closing sockets and full pipes are not modelled. The check-then-act races found on the real code are recorded as known findings (the in-flight-guard repair made an existing test spin and was withdrawn); see known_findings.json.",
